@@ -11,6 +11,22 @@ fn apply_exp10(base: BigInt, exponent: i32) -> Ratio<BigInt> {
 }
 
 fn parse_decimal_exactly(s: &str) -> Option<Ratio<BigInt>> {
+    // the sign belongs to the whole number, not to the integer part: take it off first
+    let (negative, s) = if let Some(rest) = s.strip_prefix('-') {
+        (true, rest)
+    } else if let Some(rest) = s.strip_prefix('+') {
+        (false, rest)
+    } else {
+        (false, s)
+    };
+    if s.starts_with('+') || s.starts_with('-') {
+        return None;
+    }
+    let magnitude = parse_unsigned_decimal_exactly(s)?;
+    Some(if negative { -magnitude } else { magnitude })
+}
+
+fn parse_unsigned_decimal_exactly(s: &str) -> Option<Ratio<BigInt>> {
     // scientific notation
     let (base_str, exponent) = if let Some(e_pos) = s.find(['e', 'E']) {
         let base_part = &s[..e_pos];
